@@ -170,6 +170,29 @@ def tcp_scenarios(ctx, n):
                {"op": "recv", "id": "c", "up": "c", "n": 1, "ms": 500},
                {"op": "close", "id": "c", "how": "fin"}, {"op": "sleep", "ms": 300}, {"op": "census"}]
         cases.append({"ops": ops, "group": g, "closer": how + "_during_upstream_dial", "inflight": "nothing", "k": 1, "slow": True})
+    # clients turned away because the upstream is down, who do not hang up themselves: once the proxy is disabled or deleted nothing of
+    # them may be left (the k sockets the harness itself still holds on the client side are allowed for)
+    for i in range(max(2, n // 6)):
+        g = i % 6
+        b = T.port_base(g)
+        up, px = b + 6, b + 7
+        how = ["disable", "delete"][i % 2]
+        k = rng.range(1, 4)
+        ops = [{"op": "upstream", "id": "u", "port": up, "mode": "manual"},
+               T.api("POST", "/proxies", {"name": "p", "listen": "127.0.0.1:%d" % px, "upstream": "127.0.0.1:%d" % up}),
+               {"op": "dial", "id": "w", "addr": "127.0.0.1:%d" % px}, {"op": "upaccept", "id": "ws", "up": "u", "ms": 1000},
+               {"op": "send", "id": "w", "n": 10}, {"op": "recv", "id": "ws", "up": "w", "n": 10, "ms": 1000},
+               {"op": "close", "id": "w", "how": "fin"}, {"op": "recv", "id": "ws", "up": "w", "n": 1, "ms": 1000}, {"op": "close", "id": "ws", "how": "fin"},
+               {"op": "upstop", "id": "u"}, {"op": "sleep", "ms": 150}, {"op": "census"}]
+        for j in range(k):
+            c = "c%d" % j
+            ops += [{"op": "dial", "id": c, "addr": "127.0.0.1:%d" % px}, {"op": "send", "id": c, "n": rng.choice([1, 500])},
+                    {"op": "recv", "id": c, "up": c, "n": 1, "ms": 800}]
+        ops += [T.api("POST", "/proxies/p", {"enabled": False}) if how == "disable" else T.api("DELETE", "/proxies/p"),
+                {"op": "sleep", "ms": 400}, {"op": "census"}]
+        for j in range(k):
+            ops.append({"op": "close", "id": "c%d" % j, "how": "fin"})
+        cases.append({"ops": ops, "group": g, "closer": how + "_after_upstream_down", "inflight": "nothing", "k": k, "held_by_harness": k})
     results = T.run_tcp(ctx, cases, "c15")
     fails = []
     for c, r in zip(cases, results):
@@ -186,8 +209,8 @@ def tcp_scenarios(ctx, n):
         leaks = []
         if after["goroutines"] > before["goroutines"]:
             leaks.append("%d goroutines" % (after["goroutines"] - before["goroutines"]))
-        if after["fds"] > before["fds"] and not c.get("slow"):   # (the slow-upstream stub of the harness keeps its own accepted sockets)
-            leaks.append("%d file descriptors" % (after["fds"] - before["fds"]))
+        if after["fds"] > before["fds"] + c.get("held_by_harness", 0) and not c.get("slow"):   # (the slow-upstream stub of the harness keeps its own accepted sockets)
+            leaks.append("%d file descriptors" % (after["fds"] - before["fds"] - c.get("held_by_harness", 0)))
         for key in after:
             if key.startswith(("links:", "conns:")) and after[key] != 0:
                 leaks.append("%s=%d" % (key, after[key]))
